@@ -2099,3 +2099,36 @@ package otto
 //@   nosafety
 //@   requires *obj != nil
 //@   abstract_callee (*object).getProperty
+
+// [[Get]] (8.12.3): the value of a data property; the result of calling the getter of an
+// accessor with the object as this and no arguments; undefined when the property (or the
+// getter) is absent.  [[HasProperty]] / hasOwnProperty are "the lookup found something".
+//@ func (property).get
+//@   props C07
+//@   nosafety
+//@   abstract_callee (*object).call
+//@   ensures is(p.value, Value) ==> result == p.value.(Value)
+//@   nocall (*object).call(_, _, _, _, _) when is(p.value, Value)
+//@   calls (*object).call(p.value.(propertyGetSet)[0], _, _, _, _) as g when is(p.value, propertyGetSet) && p.value.(propertyGetSet)[0] != nil
+//@   ensures is(p.value, propertyGetSet) && p.value.(propertyGetSet)[0] != nil ==> result == g
+//@   ensures is(p.value, propertyGetSet) && p.value.(propertyGetSet)[0] == nil ==> result == Value{}
+//@   at_call (*object).call : arg1.kind == valueObject && is(arg1.value, *object) && arg1.value.(*object) == this && len(arg2) == 0 && !arg3
+//@ func objectGet
+//@   props C07
+//@   nosafety
+//@   requires obj != nil
+//@   calls (*object).getProperty(obj, name) as pr
+//@   ensures pr == nil ==> result == Value{}
+//@   at_call (property).get : arg1 == obj
+//@ func objectHasProperty
+//@   props C07
+//@   nosafety
+//@   requires obj != nil
+//@   calls (*object).getProperty(obj, name) as pr
+//@   ensures result <==> pr != nil
+//@ func objectHasOwnProperty
+//@   props C07
+//@   nosafety
+//@   requires obj != nil
+//@   calls (*object).getOwnProperty(obj, name) as pr
+//@   ensures result <==> pr != nil
